@@ -93,6 +93,43 @@ def convert_and_compare(ctx, spec, work, tag, kinds=KINDS, label="generated", **
                     "formats": [f["id"] for f in spec["formats"]], "first_record": vcfgen.record_text(spec, r).strip()[:300]}, limit=3)
 
 
+def tiny_contigs_case(ctx, work):
+    """many contigs, large ones interleaved with contigs of one or two records, file over many BGZF blocks, several explode
+    partitions, indexes with and without per-contig record counts: every record must reach the store"""
+    from bio2zarr import vcf2zarr
+    rng = ctx.rng
+    spec = vcfgen.simple_file(rng, nrec=260, ncontig=7, samples=0, unused_contigs=False, span=400_000)
+    tiny = set(rng.sample(range(1, 6), 3))
+    kept, seen = [], {}
+    for r in spec["records"]:
+        seen[r["contig"]] = seen.get(r["contig"], 0) + 1
+        if r["contig"] not in tiny or seen[r["contig"]] <= rng.choice([1, 2, 3]):
+            kept.append(r)
+    spec["records"] = kept
+    exp = vczspec.expected_store(spec)
+    for kind in ("vcf.gz+tbi", "vcf.gz+tbi0", "vcf.gz+csi"):
+        path = vcfgen.materialise(spec, pathlib.Path(work) / f"tiny_{kind[-4:].replace('+', '')}", kind, block_size=rng.choice([150, 250]))
+        for parts in rng.sample([2, 3, 4, 5, 6, 8], 2 if not ctx.thorough else 5):
+            icf, out = pathlib.Path(work) / "tiny.icf", pathlib.Path(work) / "tiny.zarr"
+            inp = {"vcf_spec": spec, "kind": kind, "explode_partitions_requested": parts, "tiny_contigs": sorted(tiny)}
+            ctx.case(("tiny contigs", kind, parts, len(kept)), True)
+            ctx.count("tiny_contig_cases")
+            try:
+                convlib.explode(icf, [path], partitions=parts)
+                shutil.rmtree(out, ignore_errors=True)
+                vcf2zarr.encode(icf, out, worker_processes=0)
+            except Exception as e:  # noqa: BLE001
+                ctx.violate(f"conversion of a well-formed {kind} with {parts} explode partitions failed: {type(e).__name__}: {str(e)[:200]}",
+                            inp, "success", repr(e)[:300])
+                continue
+            got, _ = vczspec.read_store(out)
+            for name, what, e, g in vczspec.compare_store(exp, got, check_dims=False)[:2]:
+                ctx.violate(f"{kind}, {parts} explode partitions: array {name}: {what}: stored {str(g)[:120]} but the input says {str(e)[:120]}",
+                            {**inp, "array": name}, e, g)
+            shutil.rmtree(out, ignore_errors=True)
+            shutil.rmtree(icf, ignore_errors=True)
+
+
 def pipeline_model_case(ctx, spec, work, tag):
     """the Lean pipeline model driven with the real configuration of a real conversion (variant_position column)"""
     if not ctx.driver_ok:
@@ -101,7 +138,7 @@ def pipeline_model_case(ctx, spec, work, tag):
     import sys
     import zarr
     rng = ctx.rng
-    path = vcfgen.materialise(spec, pathlib.Path(work) / f"{tag}_pm", "vcf.gz+tbi", block_size=300)
+    path = vcfgen.materialise(spec, pathlib.Path(work) / f"{tag}_pm", rng.choice(["vcf.gz+tbi", "vcf.gz+tbi0"]), block_size=rng.choice([150, 300]))
     icf = pathlib.Path(work) / f"{tag}_pm.icf"
     out = pathlib.Path(work) / f"{tag}_pm.zarr"
     ccs = rng.choice([0.0001, 0.001, 16])
@@ -110,7 +147,7 @@ def pipeline_model_case(ctx, spec, work, tag):
     eparts = rng.choice([1, 2, 3, 7])
     cap = rng.choice([None, None, 1, 2])
     try:
-        convlib.explode(icf, [path], partitions=rng.choice([1, 3, 6]), column_chunk_size=ccs)
+        convlib.explode(icf, [path], partitions=rng.choice([1, 3, 6, 12]), column_chunk_size=ccs)
         s = convlib.encode(icf, out, partitions=eparts, order=rng, variants_chunk_size=chunk, max_variant_chunks=cap)
         meta = json.loads((icf / "metadata.json").read_text())
         got = [int(x) for x in zarr.open(str(out), mode="r")["variant_position"][:]]
@@ -253,6 +290,7 @@ def run(ctx):
     work = common.scratch_dir("c01-")
     rng = ctx.rng
     try:
+        tiny_contigs_case(ctx, work)
         n = 60 if ctx.thorough else 10
         if ctx.search_mode:
             n *= 2
